@@ -1,4 +1,67 @@
-import CacheVerif.Model.Proto
+import CacheVerif.Proofs.ProtoLocks
+/-!
+# C13 — every call terminates: no deadlock or lost wake-up; callbacks may re-enter
+
+Theorems about M4a (`Model.Proto`: threads × atomic steps of `Load`, `doCompute`, `resize`, `waitForResize`,
+`Range`, `Clear`, `Size`; any number of goroutines, any schedule, any keys, table sizes and chain layouts).
+What they exclude: every reachable state from which progress is impossible (deadlock, lost wake-up, leaked
+lock).  **Partial** with respect to the property text: "every call returns" under *every* interleaving is false
+for any lock under an unfair scheduler; fairness of the Go scheduler and of `sync.Mutex` is runtime behaviour
+the model cannot exhibit.  The model's bucket lock blocks instead of spinning; `valueFn` is a pure function
+(the property's own exclusion).
+-/
 namespace Props.C13
-theorem placeholder : True := trivial
+open Model.Proto Proofs.ProtoLocks
+
+variable {K V : Type} [DecidableEq K] (p : Params K)
+
+/-- **every internal lock is released on every return path** (hit, miss, delete of an absent key, retry after
+a resize, abandoned shrink, lost CAS): a thread that is idle or at its return point holds no bucket lock, not
+`resizeMu`, and does not own the `resizing` flag -/
+theorem C13_locks_released (s : St K V) (h : Reach p s) (u : Tid)
+    (hpc : (s.l u).pc = .idle ∨ (s.l u).pc = .ret) :
+    (∀ T i, (s.g.tables T).lock i ≠ some u) ∧ s.g.mu ≠ some u ∧ s.g.resizer ≠ some u :=
+  locks_released p s h u (by rcases hpc with e | e; exact Or.inl e; exact Or.inr (Or.inl e))
+
+/-- **the Range visitor runs with no internal lock held**, so it may call any method of the same container
+(the model lets a visitor start arbitrary nested calls, which are ordinary calls by a thread that holds nothing) -/
+theorem C13_reentrant (s : St K V) (h : Reach p s) (u : Tid) (hpc : (s.l u).pc = .rgVisit) :
+    (∀ T i, (s.g.tables T).lock i ≠ some u) ∧ s.g.mu ≠ some u ∧ s.g.resizer ≠ some u :=
+  locks_released p s h u (Or.inr (Or.inr hpc))
+
+/-- **nobody is left waiting for a resize that has already finished**: whoever is on the condition variable's
+notify list is parked, and either the resize is still in progress or the broadcast that wakes it is the very
+next step of the thread that cleared the flag -/
+theorem C13_no_lost_wakeup (s : St K V) (h : Reach p s) (u : Tid) (hw : s.g.waiting u = true) :
+    (s.l u).pc = .wfPark ∧ (s.g.resizing = true ∨ ∃ b, (s.l b).pc = .rzBroadcast) :=
+  no_lost_wakeup p s h u hw
+
+/-- **mutual exclusion** of every bucket lock (two lock holders of one root bucket are the same thread) -/
+theorem C13_mutex (s : St K V) (h : Reach p s) (t u : Tid) (T i : Nat)
+    (ht : holdsBucket (s.l t) = some (T, i)) (hu : holdsBucket (s.l u) = some (T, i)) : t = u :=
+  mutex p s h t u T i ht hu
+
+/-- **deadlock freedom**: in every reachable state in which some thread is inside a call, some thread that is
+itself inside a call can take a step, whatever the inputs (layout, visitor) are -/
+theorem C13_deadlock_free (s : St K V) (h : Reach p s) (t : Tid)
+    (hmid : (s.l t).pc ≠ .idle ∧ (s.l t).pc ≠ .rgVisit) :
+    ∃ u, (s.l u).pc ≠ .idle ∧ (s.l u).pc ≠ .rgVisit ∧ ∀ c, (step p s u c).isSome = true :=
+  deadlock_free_strong p s h t hmid
+
+/-- **a writer retries only before it has called the user function** (resize in progress, newer table, need to
+grow): after the call it proceeds to commit, unlock and return -/
+theorem C13_retry_only_before_fn (s : St K V) (h : Reach p s) (u : Tid) (hfn : (s.l u).fnCalls = 1) :
+    (s.l u).pc ≠ .dcLoadTable ∧ (s.l u).pc ≠ .dcLock ∧ .dcRetry ∉ (s.l u).conts := by
+  have := no_retry_after_fn' p s h u hfn
+  exact ⟨this.2.1, this.2.2.1, this.2.2.2.2⟩
+
+/-! ### Non-vacuity: a reachable state with a resizer in the copy phase and a parked waiter exists in the model
+(the scheduler exploration replays such states on the real code); here: the initial state is reachable and the
+hypotheses of `C13_deadlock_free` are satisfiable after one step. -/
+def exP : Params Nat := { growThr := fun n => n * 9 / 4, shrinkThr := fun n => n * 3 / 128, bkt := fun _ k => k, minLen := 2, growOnly := false }
+
+example : Reach (V := Nat) exP (init exP) := ⟨[], rfl⟩
+example : ∃ s, run (V := Nat) exP (init exP) [(0, { op := some (.dc 1 (fun _ => (5, false)) false false) }), (0, {}), (0, {})] = some s ∧
+    (s.l 0).pc = .dcChkResizing := ⟨_, rfl, rfl⟩
+
 end Props.C13
